@@ -836,7 +836,7 @@ def correspondence(ctx):
         for c in cases:
             req.append({"op4bin": _bin_tokens, "op4asc": _asc_tokens, "op2": _op2_tokens}[c["kind"]](c))
         rep = drv.ask(req)
-        encoded = []
+        encoded, encoded4, encodedA = [], [], []
         for case, r in zip(cases, rep):
             kind = case["kind"]
             ctx.case((kind, json.dumps(_jsonable_case(case), sort_keys=True)), nontrivial=_nontrivial(case), branch="stream:" + kind)
@@ -857,6 +857,7 @@ def correspondence(ctx):
             else:
                 p = sc.path(".op4")
                 open(p, "wb").write(bytes.fromhex(r))
+                (encoded4 if kind == "op4bin" else encodedA).append((case, bytes.fromhex(r)))
                 if kind == "op4bin":
                     mt = _bin_mtypes(case)
                     ctx.count("op4bin:%s-%s-%s" % (case["endian"], "64" if case["bit64"] else "32", "single" if case["single"] else "double"))
@@ -878,7 +879,17 @@ def correspondence(ctx):
             os.remove(p)
         _nastran_files(ctx, op4)
         if len(ctx.disagreements) <= 80:
+            _op4_sample_files(ctx, op4, drv)
+        if len(ctx.disagreements) <= 80:
+            _op4_reader_streams(ctx, op4, drv, sc, encoded4)
+        if len(ctx.disagreements) <= 80:
+            _asc_reader_streams(ctx, op4, drv, sc, encodedA)
+        if len(ctx.disagreements) <= 80:
             _reader_model_streams(ctx, op2, drv, sc, encoded)
+        if len(ctx.disagreements) <= 80:
+            _op2_forms_stream(ctx, op2, drv, sc, encoded)
+        if len(ctx.disagreements) <= 80:
+            _op2_mats_stream(ctx, op2, drv, sc, encoded)
         ctx.extra["first_disagreements"] = [
             {"stream": d["stream"], "impl": str(d["impl"])[:300], "model": str(d["model"])[:300],
              "variant": {k: v for k, v in d["input"].items() if k not in ("mats", "blocks")} if isinstance(d["input"], dict) else None}
@@ -1356,6 +1367,634 @@ def _reader_model_streams(ctx, op2, drv, sc, encoded):
                 ctx.count("rd2:block-" + {"M": "matrix", "T": "table", "E": "raises-" + str(b["content"][1])}[b["content"][0]])
                 if b["content"][0] == "M":
                     ctx.count("rd2:matrix-width-%d-%s" % (b["content"][3], "complex" if b["content"][2] else "real"))
+
+
+
+# -- the binary OUTPUT4 reader model (Model/Op4VariantsRead.lean, driver command rd4) against pyYeti -------------------
+
+
+def _canon_dense(X):
+    """per column [(index, float64 bits)] of the non-zero stored reals (two per complex element)"""
+    X = np.asarray(X)
+    rows, ncols = X.shape
+    cplx = bool(np.iscomplexobj(X))
+    if ncols == 0 or rows == 0:
+        return [[] for _ in range(ncols)]
+    raw = np.ascontiguousarray(X.T).view(np.float64).reshape(ncols, -1) if cplx else np.ascontiguousarray(X.T, dtype=np.float64).reshape(ncols, -1)
+    b = raw.view(np.uint64)
+    cols = []
+    for j in range(ncols):
+        idx = np.nonzero(b[j])[0]
+        cols.append(list(zip(idx.tolist(), b[j][idx].tolist())))
+    return cols
+
+
+def _bits_exact(a):
+    """float64 bit patterns, the sign of a zero kept (`_bits` maps -0.0 to +0.0)"""
+    a = np.ascontiguousarray(a)
+    if np.iscomplexobj(a):
+        a = a.astype(np.complex128).view(np.float64)
+    else:
+        a = a.astype(np.float64)
+    return a.reshape(-1).view(np.uint64).tolist()
+
+
+def _canon_op4(names, mats, forms, mtypes):
+    """canonical reading of op4.load(into='list'): (name, rows, cols, form, mtype, sparse, data)"""
+    out = []
+    for name, X, f, ty in zip(names, mats, forms, mtypes):
+        if sp.issparse(X):
+            X = X.tocoo() if not isinstance(X, (sp.coo_matrix, sp.coo_array)) else X
+            w = 2 if np.iscomplexobj(X.data) else 1
+            vb = _bits_exact(np.asarray(X.data))
+            if int(ty) >= 3 and w == 1 and len(vb):
+                raise Infra("complex matrix with real COO data")
+            trip = [(int(i), int(j), tuple(vb[w * k: w * k + w])) for k, (i, j) in enumerate(zip(X.row.tolist(), X.col.tolist()))]
+            out.append((name, int(X.shape[0]), int(X.shape[1]), int(f), int(ty), 1, trip))
+        else:
+            X = np.asarray(X)
+            out.append((name, int(X.shape[0]), int(X.shape[1]), int(f), int(ty), 0, _canon_dense(X)))
+    return out
+
+
+def _parse_rd4_item(txt):
+    f = txt.split(",")
+    name = bytes.fromhex(f[0]).decode("latin1")
+    rows, cols, form, mtype = int(f[1]), int(f[2]), int(f[3]), int(f[4])
+    sparse, width, data = int(f[6]), int(f[7]), f[8]
+    if data.startswith("put-error") or data == "huge":
+        return (name, abs(rows), cols, form, mtype, sparse, data)
+    toks = data.split()
+    conv = _f32_to_f64_bits if width == 4 else (lambda b: b)
+    if sparse:
+        m = 2 if mtype >= 3 else 1
+        vals = conv([int(t) for k, t in enumerate(toks) if k % (2 + m) >= 2])
+        trip = []
+        for k in range(len(toks) // (2 + m)):
+            trip.append((int(toks[k * (2 + m)]), int(toks[k * (2 + m) + 1]), tuple(vals[k * m: k * m + m])))
+        return (name, abs(rows), cols, form, mtype, 1, trip)
+    colsl, i = [], 0
+    while i < len(toks):
+        n = int(toks[i])
+        ent = [t.split(":") for t in toks[i + 1: i + 1 + n]]
+        colsl.append(list(zip([int(a) for a, _ in ent], conv([int(b) for _, b in ent]))))
+        i += 1 + n
+    return (name, abs(rows), cols, form, mtype, 0, colsl)
+
+
+def _parse_rd4(rep, listing=False):
+    """('err', class) or the canonical reading"""
+    if rep.startswith("err"):
+        return ("err", rep.split(" ")[1])
+    if not rep.startswith("ok"):
+        raise Infra("driver C11 rd4: unexpected reply %r" % rep[:80])
+    body = rep.split(" ", 3)
+    items = body[3] if len(body) > 3 else ""
+    if not items:
+        return []
+    if listing:
+        out = []
+        for t in items.split("|"):
+            f = t.split(",")
+            out.append((bytes.fromhex(f[0]).decode("latin1"), int(f[1]), int(f[2]), int(f[3]), int(f[4])))
+        return out
+    return [_parse_rd4_item(t) for t in items.split("|")]
+
+
+def _op4_exc(e):
+    c = _exc_class(e)
+    return ("err", {"empty": "empty"}.get(c, c))
+
+
+def _py_op4_load(op4, path, mode, namelist=None, cut=None, limit=20):
+    """canonical reading by pyYeti's op4.load(into='list'), or ('err', exception class)"""
+    try:
+        with warnings.catch_warnings(), _TimeLimit(limit):
+            warnings.simplefilter("ignore")
+            o = op4.OP4()
+            if cut is not None:
+                o._rowsCutoff = cut
+            return _canon_op4(*o.load(path, namelist=namelist, into="list", sparse=mode))
+    except Infra:
+        raise
+    except Exception as e:  # noqa: BLE001
+        return _op4_exc(e)
+
+
+def _py_op4_dir(op4, path, limit=20):
+    try:
+        with warnings.catch_warnings(), _TimeLimit(limit):
+            warnings.simplefilter("ignore")
+            n, s, f, t = op4.dir(path, verbose=False)
+        return [(a, int(b[0]), int(b[1]), int(c), int(d)) for a, b, c, d in zip(n, s, f, t)]
+    except Exception as e:  # noqa: BLE001
+        return _op4_exc(e)
+
+
+def _expected_rd4(case, mode):
+    """what the logical content of a generated op4bin case stands for, in the canonical form of _canon_op4"""
+    out = []
+    for m, mt in zip(case["mats"], _bin_mtypes(case)):
+        D, trip, auto = _expected(m)
+        sparse = auto if mode is None else mode
+        if sparse:
+            w = 2 if m["cplx"] else 1
+            vb = _bits(np.array([x for _, _, x in trip], dtype=complex if m["cplx"] else float))
+            data = [(i, j, tuple(vb[w * k: w * k + w])) for k, (i, j, _) in enumerate(trip)]
+        else:
+            data = _canon_dense(D)
+        out.append((m["name"].lower(), m["rows"], m["ncols"], m["form"], mt, 1 if sparse else 0, data))
+    return out
+
+
+def _exotic4(model):
+    return isinstance(model, tuple) and model and model[0] == "err" and model[1] in ("exotic", "fuel")
+
+
+def _rd4_compare(ctx, stream, desc, impl, model):
+    """exact comparison of two canonical readings; a 'put-error:<class>' item of the model stands for an exception of
+    that class raised while the matrix is assembled"""
+    if isinstance(model, list):
+        for it in model:
+            if len(it) > 6 and isinstance(it[6], str) and it[6].startswith("put-error"):
+                model = ("err", it[6].split(":")[1])
+                break
+    if _exotic4(model):
+        ctx.skip("OUTPUT4 reader model: behaviour outside the model (negative index / non-ASCII name / backward seek) on a malformed file")
+        return True
+    d = _first_diff(impl, model)
+    if d:
+        ctx.disagree(stream + d[0], desc, str(d[1])[:300], str(d[2])[:300])
+        return False
+    return True
+
+
+def _op4_reader_streams(ctx, op4, drv, sc, encoded4):
+    """`encoded4` = [(case, bytes)] of the generated binary OUTPUT4 cases (bytes from the Lean encoder)"""
+    rng = ctx.rng
+    modes = (("d", False), ("s", True), ("a", None))
+    # (a) generated files: the reader model returns the encoded content (pyYeti = content is checked by _check_op4_file)
+    req = ["rd4 3000 * - " + data.hex() for _, data in encoded4]
+    rep = drv.ask(req) if req else []
+    for (case, data), r in zip(encoded4, rep):
+        parts = r.split(" ;; ")
+        ctx.case(("rd4:generated", hashlib_key(data)), nontrivial=_nontrivial(case), branch="stream:rd4:generated")
+        ok = True
+        for k, (mc, flag) in enumerate(modes):
+            model = _parse_rd4(parts[k])
+            d = _first_diff(_expected_rd4(case, flag), model)
+            if d:
+                ctx.disagree("rd4:generated:model-vs-content-" + mc + d[0], _jsonable_case(case), "content: %s" % str(d[1])[:200], "Lean reader: %s" % str(d[2])[:200])
+                ok = False
+                break
+        if ok:
+            want = [(m["name"].lower(), m["rows"], m["ncols"], m["form"], mt) for m, mt in zip(case["mats"], _bin_mtypes(case))]
+            d = _first_diff(want, _parse_rd4(parts[3], listing=True))
+            if d:
+                ctx.disagree("rd4:generated:model-dir-vs-content" + d[0], _jsonable_case(case), str(d[1])[:200], str(d[2])[:200])
+        ctx.count("rd4:%s-%s-%s" % (case["endian"], "64" if case["bit64"] else "32", "single" if case["single"] else "double"))
+        if len(ctx.disagreements) > 80:
+            return
+    # (b) named subsets, dict mode, other cut-offs, truncated files: model = pyYeti
+    items = []  # (stream, desc, bytes, mode flag, namelist (python), names token, cut)
+    pick = [i for i, (c, d) in enumerate(encoded4) if len(d) <= 120000]
+    rng.shuffle(pick)
+    for i in pick[: ctx.pick(260, 2000)]:
+        case, data = encoded4[i]
+        names = [m["name"].lower() for m in case["mats"]]
+        nl = rng.choice([[names[-1]], [names[0], names[-1]], [names[0][: max(1, len(names[0]) - 1)]], [names[-1] + "x"],
+                         [names[0].upper()], [rng.choice(names), "zz9"], list(reversed(names))])
+        kind = ("prefix" if nl[0] not in names and any(n.startswith(nl[0]) for n in names) else
+                "upper" if nl[0] != nl[0].lower() else "plain")
+        mode = rng.choice([False, True, None])
+        items.append(("rd4:named-" + kind, {"case": case, "namelist": nl}, data, mode, nl, ",".join(n.encode().hex() for n in nl), None))
+        cut = rng.choice([0, 1, 2, 7, 2999, 3001, 10 ** 9])
+        items.append(("rd4:cutoff", {"case": case, "cut": cut}, data, mode, None, "-", cut))
+    for i in pick[: ctx.pick(160, 1200)]:
+        case, data = encoded4[i]
+        if len(data) > 60000:
+            continue
+        for k in (rng.randrange(0, len(data) + 1), max(0, len(data) - rng.randint(1, 40)), rng.randrange(0, min(len(data), 200) + 1)):
+            items.append(("rd4:malformed-truncated", {"case": case, "cut": k}, data[:k], rng.choice([False, True, None]), None, "-", None))
+    # contents that violate ONE well-formedness hypothesis of the theorems (the framing stays intact): numpy's slice
+    # assignment / scipy's COO constructor decide what happens
+    import copy
+
+    for i in pick[: ctx.pick(200, 1500)]:
+        case, _ = encoded4[i]
+        cands = [(k, j, q) for k, m in enumerate(case["mats"]) for j, (c, strs) in enumerate(m["cols"]) for q in range(len(strs))
+                 if m["rows"] < 100]
+        if not cands:
+            continue
+        c2 = copy.deepcopy(case)
+        k, j, q = rng.choice(cands)
+        m = c2["mats"][k]
+        mult = 2 if m["cplx"] else 1
+        col, strs = m["cols"][j]
+        r0, vals = strs[q]
+        kind = rng.choice(["string-too-long", "one-value-beyond", "odd-complex" if m["cplx"] else "one-value-beyond"])
+        if kind == "string-too-long":
+            strs[q] = (m["rows"] - rng.randint(0, 1), vals + [1.5] * (mult * rng.randint(1, 2)))
+        elif kind == "one-value-beyond":
+            strs[q] = (m["rows"] + rng.randint(0, 2), vals[:mult])
+        else:
+            strs[q] = (r0, vals + [2.5])
+        if m["lay"] == "n" and strs[q][0] + 1 >= 65536:
+            continue
+        items.append(("rd4:malformed-content-" + kind, {"case": c2, "violates": kind}, _py_encode_bin(c2), rng.choice([False, True, None]), None, "-", None))
+    req = ["rd4 %d %s %s %s" % (3000 if cut is None else cut, {False: "d", True: "s", None: "a"}[mode], tok, data.hex())
+           for _, _, data, mode, _, tok, cut in items]
+    rep = drv.ask(req) if req else []
+    for (stream, desc, data, mode, nl, tok, cut), r in zip(items, rep):
+        ctx.case((stream, hashlib_key(data), str(mode), tok, cut), nontrivial=True, branch="stream:" + stream)
+        model = _parse_rd4(r)
+        p = sc.path(".op4")
+        open(p, "wb").write(data)
+        impl = _py_op4_load(op4, p, mode, namelist=nl, cut=cut, limit=8)
+        if stream == "rd4:cutoff" and not isinstance(impl, tuple):
+            base = _py_op4_load(op4, p, mode, limit=8)
+            if base != impl:
+                ctx.disagree("rd4:cutoff:pyyeti-default-vs-cut", {"case": _jsonable_case(desc["case"]), "cut": cut}, "cut-off %r changes the read" % cut, "the same matrices")
+        if stream.startswith("rd4:named") and not isinstance(impl, tuple) and rng.random() < 0.5:
+            # dict mode keeps the last occurrence of a repeated name, in order of first appearance
+            try:
+                with warnings.catch_warnings():
+                    warnings.simplefilter("ignore")
+                    dct = op4.load(p, namelist=nl, into="dct", sparse=mode)
+                lst = {}
+                for it in impl:
+                    lst[it[0]] = it
+                got = _canon_op4(list(dct), [v[0] for v in dct.values()], [v[1] for v in dct.values()], [v[2] for v in dct.values()])
+                if got != list(lst.values()):
+                    ctx.disagree("rd4:named:dict-vs-list", {"case": _jsonable_case(desc["case"]), "namelist": nl}, [g[:5] for g in got], [g[:5] for g in lst.values()])
+                ctx.count("rd4:dict-mode")
+            except Exception as e:  # noqa: BLE001
+                ctx.disagree("rd4:named:dict-raises", {"case": _jsonable_case(desc["case"]), "namelist": nl}, repr(e), "a dictionary")
+        os.remove(p)
+        dj = dict(desc, case=_jsonable_case(desc["case"]))
+        if _rd4_compare(ctx, stream, dj, impl, model):
+            if isinstance(model, tuple):
+                ctx.count("rd4:raises-" + model[1])
+            elif stream.startswith("rd4:named"):
+                ctx.count("rd4:named-selects-%s" % ("none" if not model else "some"))
+        if len(ctx.disagreements) > 80:
+            return
+
+
+def _op4_sample_files(ctx, op4, drv):
+    """EVERY *.op4 under pyyeti/tests: binary files by the reader model of Model/Op4VariantsRead.lean (rd4), ASCII files
+    by the ASCII reader model of Model/Op4Ascii.lean (driver C04, adec *) - three read modes and the listing"""
+    from props import c04 as _c04
+
+    root = os.path.join(ctx.repo, "pyyeti", "tests")
+    files = sorted(glob.glob(os.path.join(root, "**", "*.op4"), recursive=True))
+    breq, bfiles, areq, afiles = [], [], [], []
+    for f in files:
+        data = open(f, "rb").read()
+        if len(data) > 400000 and not ctx.thorough:
+            ctx.skip("op4 sample file larger than 400 kB (quick tier)")
+            continue
+        if len(data) >= 16 and min(data[:4]) == 0:
+            breq.append("rd4 3000 * - " + data.hex())
+            bfiles.append(f)
+        else:
+            dr = _py_op4_dir(op4, f, limit=120)
+            huge = isinstance(dr, list) and any(a[1] * a[2] > 20000000 for a in dr)
+            # a dense read of a 1e7 x 1e7 matrix is impossible on both sides: sparse read and listing only
+            areq.append(("adec s " if huge else "adec * ") + data.hex())
+            if huge:
+                areq.append("adir " + data.hex())
+            afiles.append((f, huge, dr))
+    brep = drv.ask(breq) if breq else []
+    for f, r in zip(bfiles, brep):
+        name = os.path.relpath(f, ctx.repo)
+        parts = r.split(" ;; ")
+        dr = _py_op4_dir(op4, f, limit=120)
+        huge = isinstance(dr, list) and any(a[1] * a[2] > 20000000 for a in dr)
+        for k, (mc, flag) in enumerate((("d", False), ("s", True), ("a", None))):
+            ctx.case(("rd4:sample-file", name, mc), nontrivial=True, branch="stream:rd4:sample-file")
+            model = _parse_rd4(parts[k])
+            if huge and isinstance(model, list) and any(it[6] == "huge" for it in model):
+                ctx.skip("op4 sample file with a matrix of more than 2e7 elements: dense read skipped")
+                continue
+            impl = _py_op4_load(op4, f, flag, limit=120)
+            _rd4_compare(ctx, "rd4:sample-file:" + mc, {"file": name}, impl, model)
+        ctx.case(("rd4:sample-file", name, "dir"), nontrivial=True, branch="stream:rd4:sample-file")
+        _rd4_compare(ctx, "rd4:sample-file:dir", {"file": name}, dr, _parse_rd4(parts[3], listing=True))
+        if isinstance(dr, list):
+            o = op4.OP4()
+            o._op4open_read(f)
+            ctx.count("rd4:sample-%s-%s" % ("be" if o._endian == ">" else "le", "64" if o._bit64 else "32"))
+            o._op4close()
+            for a in dr:
+                ctx.count("rd4:sample-mtype-%d" % a[4])
+    arep = ctx.driver("C04").ask(areq) if areq else []
+    k0 = 0
+    for f, huge, dr in afiles:
+        name = os.path.relpath(f, ctx.repo)
+        if huge:
+            parts = [None, arep[k0], None, arep[k0 + 1]]
+            k0 += 2
+            ctx.skip("op4 ASCII sample file with a matrix of more than 2e7 elements: dense read skipped")
+        else:
+            parts = arep[k0].split(" ;; ")
+            k0 += 1
+            if len(parts) != 4:
+                ctx.disagree("asc:sample-file:driver", {"file": name}, "a reading", arep[k0 - 1][:100])
+                continue
+        for k, (mc, flag) in enumerate((("d", False), ("s", True), ("a", None))):
+            if parts[k] is None:
+                continue
+            ctx.case(("asc:sample-file", name, mc), nontrivial=True, branch="stream:asc:sample-file")
+            model = _c04._parse_dec(parts[k])
+            try:
+                with warnings.catch_warnings(), _TimeLimit(120):
+                    warnings.simplefilter("ignore")
+                    impl = _c04._canon_loaded(*op4.load(f, into="list", sparse=flag))
+            except Exception as e:  # noqa: BLE001
+                impl = "raises " + type(e).__name__
+            if impl != model:
+                d = _first_diff(impl, model) if isinstance(model, list) and isinstance(impl, list) else ("", impl, model)
+                ctx.disagree("asc:sample-file:" + mc + d[0], {"file": name}, str(d[1])[:300], str(d[2])[:300])
+        ctx.case(("asc:sample-file", name, "dir"), nontrivial=True, branch="stream:asc:sample-file")
+        md = _c04._parse_dir(parts[3])
+        if md != dr:
+            ctx.disagree("asc:sample-file:dir", {"file": name}, str(dr)[:300], str(md)[:300])
+        if isinstance(dr, list):
+            for a in dr:
+                ctx.count("asc:sample-mtype-%d" % a[4])
+
+
+def _asc_reader_streams(ctx, op4, drv, sc, encodedA):
+    """generated ASCII variant files (E / D exponents, any announced nEw.d, all layouts and partitions): the ASCII
+    reader model of Model/Op4Ascii.lean (driver C04: adec *) and the name-list loop of Model/Op4VariantsAscii.lean
+    (driver C11: rda) against pyYeti"""
+    from props import c04 as _c04
+
+    rng = ctx.rng
+    pick = list(range(len(encodedA)))
+    rng.shuffle(pick)
+    pick = pick[: ctx.pick(260, 2500)]
+    rep = ctx.driver("C04").ask(["adec * " + encodedA[i][1].hex() for i in pick]) if pick else []
+    named = []
+    for i, r in zip(pick, rep):
+        case, data = encodedA[i]
+        parts = r.split(" ;; ")
+        ctx.case(("asc:generated", hashlib_key(data)), nontrivial=_nontrivial(case), branch="stream:asc:generated")
+        p = sc.path(".op4")
+        open(p, "wb").write(data)
+        ok = len(parts) == 4
+        if not ok:
+            ctx.disagree("asc:generated:driver", _jsonable_case(case), "a reading", r[:100])
+        for k, (mc, flag) in enumerate((("d", False), ("s", True), ("a", None))):
+            if not ok:
+                break
+            model = _c04._parse_dec(parts[k])
+            try:
+                with warnings.catch_warnings(), _TimeLimit(15):
+                    warnings.simplefilter("ignore")
+                    impl = _c04._canon_loaded(*op4.load(p, into="list", sparse=flag))
+            except Exception as e:  # noqa: BLE001
+                impl = "raises " + type(e).__name__
+            if impl != model:
+                d = _first_diff(impl, model) if isinstance(model, list) and isinstance(impl, list) else ("", impl, model)
+                ctx.disagree("asc:generated:" + mc + d[0], _jsonable_case(case), str(d[1])[:300], str(d[2])[:300])
+                ok = False
+        if ok:
+            md, dr = _c04._parse_dir(parts[3]), _py_op4_dir(op4, p)
+            if md != dr:
+                ctx.disagree("asc:generated:dir", _jsonable_case(case), str(dr)[:300], str(md)[:300])
+            ctx.count("asc:model-%s" % ("D" if case["useD"] else "E"))
+            names = [m["name"].lower() for m in case["mats"]]
+            nl = rng.choice([[names[-1]], [names[0][: max(1, len(names[0]) - 1)]], [names[0].upper()], [rng.choice(names), "zz9"],
+                             list(reversed(names))])
+            named.append((case, data, nl))
+        os.remove(p)
+        if len(ctx.disagreements) > 80:
+            return
+    rep = drv.ask(["rda %s %s" % (",".join(n.encode().hex() for n in nl), data.hex()) for _, data, nl in named]) if named else []
+    for (case, data, nl), r in zip(named, rep):
+        ctx.case(("asc:named", hashlib_key(data), tuple(nl)), nontrivial=True, branch="stream:asc:named")
+        p = sc.path(".op4")
+        open(p, "wb").write(data)
+        try:
+            with warnings.catch_warnings(), _TimeLimit(15):
+                warnings.simplefilter("ignore")
+                n, X, fo, t = op4.load(p, namelist=nl, into="list")
+            impl = [(a, int(x.shape[0]), int(x.shape[1]), int(b), int(c)) for a, x, b, c in zip(n, X, fo, t)]
+        except Exception as e:  # noqa: BLE001
+            impl = "raises " + type(e).__name__
+        os.remove(p)
+        if r.startswith("ok"):
+            model = []
+            for it in (r[3:].split("|") if r[3:] else []):
+                f = it.split(",")
+                model.append((bytes.fromhex(f[0]).decode("latin1"), abs(int(f[1])), int(f[2]), int(f[3]), int(f[4])))
+        else:
+            model = "raises"
+        if impl != model:
+            ctx.disagree("asc:named", {"case": _jsonable_case(case), "namelist": nl}, str(impl)[:300], str(model)[:300])
+        else:
+            ctx.count("asc:named-selects-%s" % ("none" if not model else "some"))
+
+
+
+# -- rdop2record(form, N) and rdop2mats(names, which): Model/Op2ReadForms.lean (driver commands rec2, mats2) ---------
+
+_FORMS = {"i": "int", "u": "uint", "s": "single", "d": "double", "b": "bytes"}
+
+
+def _py_record(o2, pos, form, N, kb, cut):
+    """canonical result of o2.rdop2record(form, N) called at byte `pos`: ('err', class) | ('none', consumed) |
+    ('ok', consumed, [bit patterns / bytes])"""
+    o2._rowsCutoff = cut
+    o2._fileh.seek(pos)
+    try:
+        with _TimeLimit(8):
+            r = o2.rdop2record(form=_FORMS[form], N=N)
+    except Exception as e:  # noqa: BLE001
+        return ("err", _exc_class(e))
+    finally:
+        o2._rowsCutoff = 3000
+    used = int(o2._fileh.tell()) - pos
+    if r is None:
+        return ("none", used)
+    if form == "b":
+        return ("ok", used, list(r))
+    a = np.asarray(r)
+    if form in ("i", "u"):
+        return ("ok", used, [int(x) % (1 << (8 * kb)) for x in a.tolist()])
+    if form == "s":
+        return ("ok", used, np.ascontiguousarray(a, dtype=np.float32).view(np.uint32).tolist())
+    return ("ok", used, np.ascontiguousarray(a, dtype=np.float64).view(np.uint64).tolist())
+
+
+def _parse_rec2(r):
+    t = r.split(" ")
+    if t[0] == "err":
+        return ("err", t[1])
+    if t[0] == "none":
+        return ("none", int(t[1]))
+    if t[0] != "ok":
+        raise Infra("driver C11 rec2: unexpected reply %r" % r[:80])
+    return ("ok", int(t[1]), [int(x) for x in t[3:3 + int(t[2])]])
+
+
+def _op2_forms_stream(ctx, op2, drv, sc, encoded):
+    rng = ctx.rng
+    cand = [i for i, (case, _, data) in enumerate(encoded) if len(data) < 150000 and any(b["t"] == "t" and b["records"] for b in case["blocks"])]
+    rng.shuffle(cand)
+    items = []
+    for i in cand[: ctx.pick(120, 900)]:
+        case, positions, data = encoded[i]
+        kb = 8 if case["bit64"] else 4
+        p = sc.path(".op2")
+        open(p, "wb").write(data)
+        try:
+            o2 = op2.OP2(p)
+        except Exception as e:  # noqa: BLE001
+            ctx.disagree("rec2:open-raises", _jsonable_case(case), repr(e), "an open file")
+            os.remove(p)
+            continue
+        try:
+            for sn, b in zip(o2.dblist, case["blocks"]):
+                if b["t"] != "t" or not b["records"]:
+                    continue
+                o2.set_position(sn.start)
+                o2.rdop2nt()
+                starts = []
+                for pieces in b["records"]:
+                    starts.append(int(o2._fileh.tell()))
+                    o2.skipop2record()
+                starts.append(int(o2._fileh.tell()))  # the end-of-table key: rdop2record returns None
+                for k in rng.sample(range(len(starts)), min(len(starts), 2)):
+                    pos = starts[k]
+                    total = sum(len(pc) for pc in b["records"][k]) if k < len(b["records"]) else 0
+                    big = total > 400
+                    for form in (["i", rng.choice("usdb")] if big else ["i", "u", "s", "d", "b"]):
+                        w = {"i": kb, "u": kb, "s": 4, "d": 8, "b": 1}[form]
+                        n_items = total * kb // w
+                        for N in ({0, n_items} if big else {0, n_items, max(0, n_items - 1), n_items + 2, 1}):
+                            cut = rng.choice([3000, 3000, 0, 2, 10 ** 9])
+                            impl = _py_record(o2, pos, form, N, kb, cut)
+                            items.append((case, pos, form, N, cut, data, impl, k < len(b["records"]) and
+                                          any((len(pc) * kb) % w for pc in b["records"][k])))
+        finally:
+            o2._fileh.close()
+            o2._fileh = None
+            os.remove(p)
+    rep = drv.ask(["rec2 %s %d %d %s %d %s" % (case["endian"], 1 if case["bit64"] else 0, cut, form, N, data[pos:].hex())
+                   for case, pos, form, N, cut, data, _, _ in items]) if items else []
+    for (case, pos, form, N, cut, data, impl, misaligned), r in zip(items, rep):
+        stream = "rec2:%s" % _FORMS[form]
+        ctx.case((stream, hashlib_key(data), pos, N, cut), nontrivial=True, branch="stream:" + stream)
+        model = _parse_rec2(r)
+        if model[0] == "err" and model[1] in ("exotic", "fuel"):
+            if impl == ("err", "exotic") and form == "u" and case["bit64"]:
+                # model and code agree on the finding: OverflowError of the signed struct format below the cut-off
+                ctx.count("rec2:uint-i64-overflow-below-cutoff")
+                continue
+            ctx.skip("rdop2record: N larger than the record (uninitialised tail of np.empty) or behaviour outside the model")
+            continue
+        if impl != model:
+            ctx.disagree(stream, {"case": _jsonable_case(case), "pos": pos, "form": _FORMS[form], "N": N, "cut": cut},
+                         str(impl)[:300], str(model)[:300])
+            if len(ctx.disagreements) > 80:
+                return
+            continue
+        ctx.count("rec2:N%s" % ("=0" if N == 0 else ">0"))
+        ctx.count("rec2:result-%s" % model[0])
+        if misaligned:
+            ctx.count("rec2:piece-length-not-a-multiple-of-the-item-width")
+        if model[0] == "ok" and N == 0 and cut != 3000:
+            ctx.count("rec2:other-cutoff")
+
+
+def _canon_mats(d):
+    """rdop2mats result -> [(namehex, [canonical matrices])] in dict order"""
+    out = []
+    for nm, X in d.items():
+        Xs = X if isinstance(X, list) else [X]
+        out.append((nm.encode().hex(), Xs))
+    return out
+
+
+def _op2_mats_stream(ctx, op2, drv, sc, encoded):
+    rng = ctx.rng
+    cand = [i for i, (case, _, data) in enumerate(encoded) if len(data) < 80000 and any(b["t"] == "m" for b in case["blocks"])]
+    rng.shuffle(cand)
+    items = []
+    for i in cand[: ctx.pick(200, 1500)]:
+        case, positions, data = encoded[i]
+        mnames = [b["name"] for b in case["blocks"] if b["t"] == "m"]
+        nm = rng.choice(mnames)
+        choices = [None, [nm.lower()], [nm[: max(1, len(nm) - 1)].lower() + "*"], [nm[: max(1, len(nm) - 1)]], ["*"], [nm, "zz*"],
+                   [nm + "x"], [""], ["k*", nm.lower()], [nm[0].lower() + "*"]]
+        for names in rng.sample(choices, 3):
+            which = rng.choice([-1, -1, 0, 1, -2, "all", 5])
+            items.append((case, data, names, which))
+    req = []
+    for case, data, names, which in items:
+        tok = "-" if names is None else ",".join(n.encode().hex() if n else "" for n in names)
+        if names is not None and any(n == "" for n in names):
+            tok = ",".join(n.encode().hex() for n in names)  # an empty pattern is an empty hex token
+        req.append("mats2 %s %s %s" % (which, tok if tok else ",", data.hex()))
+    rep = drv.ask(req) if req else []
+    for (case, data, names, which), r in zip(items, rep):
+        kind = "none" if names is None else ("wildcard" if any(n.endswith("*") for n in names) else "plain")
+        stream = "mats2:names-%s" % kind
+        ctx.case((stream, hashlib_key(data), str(names), str(which)), nontrivial=True, branch="stream:" + stream)
+        if r.startswith("err"):
+            model = ("err", r.split(" ")[1])
+        else:
+            tk = _Toks(r)
+            tk.next()
+            model = []
+            for _ in range(tk.int()):
+                nmh = tk.hex()
+                ms = []
+                for _ in range(tk.int()):
+                    if tk.next() != "M":
+                        raise Infra("driver C11 mats2: matrix expected")
+                    ms.append(_parse_mat(tk))
+                model.append((nmh, ms))
+        if isinstance(model, tuple) and model[1] in ("exotic", "fuel"):
+            ctx.skip("rdop2mats: behaviour outside the model")
+            continue
+        p = sc.path(".op2")
+        open(p, "wb").write(data)
+        try:
+            o2 = op2.OP2(p)
+            try:
+                with _TimeLimit(10):
+                    d = o2.rdop2mats(names=names, which=which)
+                impl = []
+                for nmh, Xs in _canon_mats(d):
+                    sns = [x for x in o2.dblist if x.name.encode().hex() == nmh and x.dbtype == 1]
+                    w = o2._fbytes if (sns[0].trailer[4] & 1) else 8
+                    # all blocks of one name may differ in precision: take each matrix's own width
+                    ws = [o2._fbytes if (x.trailer[4] & 1) else 8 for x in sns]
+                    if which == "all":
+                        impl.append((nmh, [_canon_matrix(X, wk) for X, wk in zip(Xs, ws)]))
+                    else:
+                        impl.append((nmh, [_canon_matrix(Xs[0], ws[which])]))
+            finally:
+                o2._fileh.close()
+                o2._fileh = None
+        except Exception as e:  # noqa: BLE001
+            impl = ("err", _exc_class(e))
+        os.remove(p)
+        d = _first_diff(impl, model)
+        if d:
+            ctx.disagree(stream + d[0], {"case": _jsonable_case(case), "names": names, "which": which}, str(d[1])[:300], str(d[2])[:300])
+            if len(ctx.disagreements) > 80:
+                return
+            continue
+        ctx.count("mats2:which-%s" % which)
+        if isinstance(model, tuple):
+            ctx.count("mats2:raises-" + model[1])
+        elif names is not None:
+            ctx.count("mats2:selects-%s" % ("none" if not model else "some"))
 
 
 def hashlib_key(data):
